@@ -41,3 +41,5 @@ def check(v, tier, opts):
     v.assumptions.append("edges strictly ascending and non-null; canonical nulls only (NaN for f64, None for Option<i32>)")
     kani_engine.decide(v, "C14", tier, opts)
     return v.finish(RULE)
+
+READY = True
